@@ -1,4 +1,6 @@
 """C08 — match: grammar/handler exhaustiveness and order, result-variable discipline, capture registration, placement."""
+CANON = True
+
 import ast
 
 from .. import compq, placement, pyq
